@@ -134,8 +134,35 @@ def run(sid, tier="quick", props=None, check_timeout=1800):
     return out
 
 
+def run_scratch(sid, tier="quick"):
+    """
+    Preview: the same check against a scratch copy of HEAD with the patch applied (EDGEGRAPH_REPO), for
+    when /repo is busy with another seeded run.  Verdicts recorded in meta.json come from `run` only.
+    """
+    d = os.path.join(SEEDED, sid)
+    meta = json.load(open(os.path.join(d, "meta.json")))
+    scratch = tempfile.mkdtemp(prefix=f"sfs_{sid}_", dir="/tmp")
+    try:
+        subprocess.run(f"git -C /repo archive HEAD edgegraph | tar -x -C {scratch}", shell=True, check=True)
+        ap = sh(["patch", "-p1", "-s", "-d", scratch, "-i", os.path.join(d, "patch.diff")])
+        if ap.returncode:
+            sys.exit("patch does not apply: " + ap.stdout + ap.stderr)
+        env = dict(os.environ, EDGEGRAPH_REPO=scratch, EGMC_EVIDENCE_DIR=os.path.join(scratch, "ev"),
+                   EGMC_REPLAY_DIR=os.path.join(scratch, "rp"))
+        r = subprocess.run([os.path.join(ROOT, "check"), meta["property"], tier], env=env, capture_output=True, text=True)
+        fps = [l.strip()[len("fingerprint: "):] for l in r.stdout.splitlines() if l.strip().startswith("fingerprint:")]
+        verdict = {0: "missed", 1: "DETECTED", 2: "harness-error"}.get(r.returncode, f"rc={r.returncode}")
+        print(f"{sid:28s} {meta['property']} {tier:8s} {verdict:10s} (scratch copy) {' ; '.join(fps[:2])[:200]}")
+        if r.returncode == 2:
+            print(r.stdout[-1500:])
+    finally:
+        shutil.rmtree(scratch, ignore_errors=True)
+
+
 def main():
     a = sys.argv[1:]
+    if a[0] == "preview":
+        return run_scratch(a[1], a[2] if len(a) > 2 else "quick")
     if a[0] == "ingest":
         ingest(a[1], a[2], a[3])
     elif a[0] == "verify":
